@@ -66,12 +66,45 @@ def decorated_terms():
     return terms
 
 
+def operator_distributions():
+    """Probability terms whose distribution is written with the `|` and `&` operators on variables in every grouping
+    that Python's precedence (& binds tighter than |) produces for up to four variables, in several name orders, plain,
+    interventional and population-tagged: the distribution object must come out in the same canonical order as the
+    comma spelling and as the re-parsed text."""
+    from y0.dsl import PP, A, B, C, D, P, Pi1, X
+
+    terms = []
+    for a, b, c, d in itt.permutations((A, B, C, D)):
+        shapes = [
+            a | b, a | b | c, a | b & c, a & b | c, a | b | c | d, a | b | c & d, a | b & c | d, a & b | c | d,
+            a & b | c & d, a | b & c & d, a & b & c | d, (a | b) | (c & d), (a & b) | (c | d) if False else a & b | c | d,
+        ]
+        for sh in shapes:
+            terms.append(P(sh))
+    uniq, seen = [], set()
+    for t in terms:
+        k = (tuple(t.children), tuple(t.parents))
+        if k not in seen:
+            seen.add(k)
+            uniq.append(t)
+    out = list(uniq)
+    for a, b, c in itt.permutations((A, B, C)):
+        out.append(PP[Pi1](a | b | c))
+        out.append(P[X](a | b | c))
+        out.append(P[X](a | b & c))
+        out.append(P((a @ -X) | (b @ -X) | (c @ -X)))
+    return out
+
+
 def build(depth, stride, offset):
     """Expressions built through the public operators only."""
     from y0.dsl import A, B, C, One, P, Sum, Zero
 
     L = leaves()
     out = [("leaf", e) for e in L]
+    for e in operator_distributions():
+        out.append(("opdist", e))
+        out.append(("opdist*", e * P(B)))
     for e in decorated_terms():
         out.append(("decorated", e))
         out.append(("decorated*", e * P(B)))
@@ -247,7 +280,7 @@ def run() -> int:
         "normalising constructors reached through the parser (Distribution.safe, Product.safe, Sum.safe, __truediv__)",
     ]
     rep.bounds = {
-        "expressions": "built through public operators only: 594 single terms over systematically decorated variables (value mark x 0-2 subscripts of mixed polarity, on children and conditions, plain / population-tagged) alone, times P(B), and under P(B)/.; 30 leaves (joint/conditional, value marks, L2 and L3 subscripts, population tags incl. the target tag, Q-factors, One, Zero); all a*b, a/b, Sum[R](a); depth 3 = (depth-2) op leaf in both positions and sums (quick: every 7th, thorough: every 2nd); an operator-precedence family in both tiers (every grouping of three small operands by * and /, alone, as the body of a Sum, and next to a Sum); every variable name the parser documents (A-Z without P and Q, plain / indexed / underscore-indexed; population names with index) in a plain, a conditional, a summed and a population-tagged term; structural duplicates removed",
+        "expressions": "built through public operators only: distributions written with the | and & operators on up to four variables in every grouping Python's precedence produces and every name order (plain, interventional, population-tagged, counterfactual); 594 single terms over systematically decorated variables (value mark x 0-2 subscripts of mixed polarity, on children and conditions, plain / population-tagged) alone, times P(B), and under P(B)/.; 30 leaves (joint/conditional, value marks, L2 and L3 subscripts, population tags incl. the target tag, Q-factors, One, Zero); all a*b, a/b, Sum[R](a); depth 3 = (depth-2) op leaf in both positions and sums (quick: every 7th, thorough: every 2nd); an operator-precedence family in both tiers (every grouping of three small operands by * and /, alone, as the body of a Sum, and next to a Sum); every variable name the parser documents (A-Z without P and Q, plain / indexed / underscore-indexed; population names with index) in a plain, a conditional, a summed and a population-tagged term; structural duplicates removed",
         "distributions": "free positive joints per (population, intervention assignment), binary variables, Q-factors uninterpreted; cross-world terms cannot be evaluated in this world: for them only object equality after the round trip is checked (a shape-changing round trip of a cross-world term is reported as inconclusive)",
         "PYTHONHASHSEED": hashseed(),
     }
